@@ -14,6 +14,8 @@ HOOKS = {
 }
 
 ENGINES = [
+    {"name": "realproc", "path": "lib/domain.py (c18, c19, c20) + harness/realprobe + tla/{Env,Logs,Procs,Rows*}.tla", "serves_properties": ["C18", "C19", "C20"],
+     "kind_free_text": "real PipelineRunner + real TaskRunner + /bin/sh children; cases from TLC-enumerated specs; rows validated by TLC"},
     {"name": "store", "path": "lib/store_engine.py + harness/storeprobe + tla/{Store,StoreTrace}.tla", "serves_properties": ["C09"],
      "kind_free_text": "TLC-checked crash model of the save protocol; strace traces validated by TLC; real SIGKILL at every syscall boundary"},
     {"name": "auth", "path": "lib/domain.py (c14) + harness/authprobe + tla/{AuthTable,Auth,AuthTrace}.tla", "serves_properties": ["C14"],
@@ -96,6 +98,27 @@ CHECKS["C09"] = {"engine": "store", "level": "model_checking", "ref": "DESIGN.md
                  "note": DOMAIN_NOTE + " Crash = process kill, not power loss (Save does not fsync). Exhaustive at syscall granularity for the "
                          "snapshot sizes used; states inside one write(2) are not distinguished.",
                  "technique": "TLA+ protocol spec model-checked with TLC; strace traces of the real Save validated by TLC; SIGKILL at every syscall boundary + Load"}
+
+REAL_NOTE = ("Trusted: TLC, the Go probe, /bin/sh and coreutils of the sandbox, /proc. Real processes and wall-clock time: shapes, payload "
+             "classes, sizes and concurrency are sampled from the finite spaces written in the specs; time bounds carry a latency allowance.")
+CHECKS["C18"] = {"engine": "realproc", "level": "exploration", "ref": "DESIGN.md 6 C18",
+                 "text": "Env.tla enumerates (subset of levels defining a name) x payload class x observation point and gives the visible level; real "
+                         "tasks run through the real TaskRunner / PgidExecutor (built as in app.go) print every variable; TLC validates each row "
+                         "against Visible(case) and checks that every case was recorded; template rendering per job and the refusal of __jobID "
+                         "are extra rows.", "note": REAL_NOTE,
+                 "technique": "TLA+ case spec enumerated by TLC as oracle; rows recorded from real task processes validated by TLC"}
+CHECKS["C19"] = {"engine": "realproc", "level": "exploration", "ref": "DESIGN.md 6 C19",
+                 "text": "Logs.tla enumerates 516 task shapes (commands x stream pattern x size classes) with the expected chunk order per stream; each "
+                         "shape runs as a real task in 3 concurrent jobs; Reader bytes and GET /job/logs are compared; TLC validates order, equality and "
+                         "absence of cross-talk per row; a burst of 16 jobs x 8 tasks started simultaneously, unknown tasks and other spellings of the "
+                         "job id are extra rows.", "note": REAL_NOTE,
+                 "technique": "TLA+ case spec enumerated by TLC as generator and oracle; rows recorded from real task output validated by TLC"}
+CHECKS["C20"] = {"engine": "realproc", "level": "exploration", "ref": "DESIGN.md 6 C20",
+                 "text": "Procs.tla models the kill protocol over all trees (leader + 2 descendants x ignores-SIGINT x holds-pipe); TLC proves NoSurvivor "
+                         "and Bounded for the repaired protocol and refutes them for the original one. 10 real tree shapes x 2 cancel instants + forced "
+                         "shutdown run as real tasks; /proc is scanned for marked processes at the report of the job and 250 ms later; TLC validates "
+                         "the rows.", "note": REAL_NOTE,
+                 "technique": "TLA+ protocol spec model-checked with TLC; rows recorded from real process trees validated by TLC"}
 
 NA = {}
 
